@@ -636,17 +636,33 @@ func (s *verifStack) opEvict(out *verifutil.Out, rnd *verifutil.Rand) {
 	}
 }
 
-func (s *verifStack) opTrunc(out *verifutil.Out, rnd *verifutil.Rand) {
+// presentSorted lists the cached chunks in (file, offset) order (cache keys depend on the node ids,
+// which the memory store assigns in map-iteration order, so they are no stable order).
+func (s *verifStack) presentSorted() []string {
 	keys := s.wc.presentKeys()
-	sort.Strings(keys)
+	var known []string
+	for _, k := range keys {
+		if _, ok := s.keyInfo[k]; ok {
+			known = append(known, k)
+		}
+	}
+	sort.Slice(known, func(i, j int) bool {
+		a, b := s.keyInfo[known[i]], s.keyInfo[known[j]]
+		if a[0] != b[0] {
+			return a[0] < b[0]
+		}
+		return a[1] < b[1]
+	})
+	return known
+}
+
+func (s *verifStack) opTrunc(out *verifutil.Out, rnd *verifutil.Rand) {
+	keys := s.presentSorted()
 	if len(keys) == 0 {
 		return
 	}
 	k := keys[rnd.Intn(len(keys))]
-	info, ok := s.keyInfo[k]
-	if !ok {
-		return
-	}
+	info := s.keyInfo[k]
 	cut := rnd.Range(0, info[2]-1)
 	s.wc.truncate(k, int(cut))
 	out.Emit(fmt.Sprintf("trunc %d %d %d %d", info[0], info[1], info[2], cut), "ok")
@@ -950,10 +966,10 @@ func verifConcurrentReads(out *verifutil.Out, rnd *verifutil.Rand, s *verifStack
 		}()
 		// an eviction racing with the readers
 		if w == 1 {
-			keys := s.wc.presentKeys()
-			if len(keys) > 0 {
-				sort.Strings(keys)
-				s.wc.evict(keys[rnd.Intn(len(keys))])
+			// (which chunks are present now depends on the schedule: draw first, then pick)
+			x := rnd.Intn(1 << 20)
+			if keys := s.presentSorted(); len(keys) > 0 {
+				s.wc.evict(keys[x%len(keys)])
 			}
 		}
 	}
